@@ -88,6 +88,28 @@ pub fn encode(h: &[Op]) -> String {
     h.iter().map(|o| match o { Op::Add(k) => format!("A{}", k), Op::Remove(k) => format!("R{}", k), Op::Parse(d) => format!("P{}", hexs(d)) }).collect::<Vec<_>>().join(";")
 }
 
+pub fn decode(s: &str) -> Option<Vec<Op>> {
+    s.split(';').map(|t| {
+        let (k, rest) = t.split_at(1);
+        match k { "A" => rest.parse().ok().map(Op::Add), "R" => rest.parse().ok().map(Op::Remove), "P" => crate::util::unhex(rest).and_then(|b| String::from_utf8(b).ok()).map(Op::Parse), _ => None }
+    }).collect()
+}
+
+/// `mdit-harness c08-history <encoded>`: run ONE history in this (fresh) process and print the final parse
+pub fn run_one(enc: &str) -> String {
+    let h = match decode(enc) { Some(h) => h, None => return "bad-history".into() };
+    match crate::util::guarded(|| { let mut md = fresh(); let mut last = None; for o in &h { if let Some(r) = apply(&mut md, o) { last = Some(r); } } last }) {
+        Ok(r) => format!("ok {}", hexs(&r.unwrap_or_default())),
+        Err(e) => format!("panic {}", hexs(&e)),
+    }
+}
+
+fn in_fresh_process(h: &[Op]) -> Option<String> {
+    let exe = std::env::current_exe().ok()?;
+    let out = std::process::Command::new(exe).arg("c08-history").arg(encode(h)).output().ok()?;
+    Some(String::from_utf8_lossy(&out.stdout).trim().to_string())
+}
+
 pub fn run(n: usize, rng: &mut Rng, rep: &mut Report) {
     let corpus = vec![
         vec![Op::Parse("a".into()), Op::Remove(6), Op::Parse("\\*".into())],
@@ -106,10 +128,18 @@ pub fn run(n: usize, rng: &mut Rng, rep: &mut Report) {
         let reference = run(&stripped);
         rep.stats.case(&input, h.iter().filter(|o| matches!(o, Op::Parse(_))).count() >= 2 && h.iter().any(|o| !matches!(o, Op::Parse(_))));
         match (full, reference) {
-            (Ok(a), Ok(b)) => if a != b { rep.violation("parse-dependent-chain", input, format!("with intermediate parses {:?}; without {:?}", a, b)); },
-            (Err(a), Ok(_)) => rep.violation("parse-dependent-chain", input, format!("history with parses panics: {}", a)),
-            (Ok(_), Err(b)) => rep.violation("parse-dependent-chain", input, format!("history without parses panics: {}", b)),
+            (Ok(a), Ok(b)) => if a != b { rep.violation("parse-dependent-chain", input.clone(), format!("with intermediate parses {:?}; without {:?}", a, b)); },
+            (Err(a), Ok(_)) => rep.violation("parse-dependent-chain", input.clone(), format!("history with parses panics: {}", a)),
+            (Ok(_), Err(b)) => rep.violation("parse-dependent-chain", input.clone(), format!("history without parses panics: {}", b)),
             (Err(_), Err(_)) => { rep.stats.count("both_panic"); }
+        }
+        // process-wide state (a static, a thread-local) written by parse would contaminate both runs above alike:
+        // for a sample, each of the two histories runs in a process of its own
+        if i < corpus.len() || i % 24 == 0 {
+            if let (Some(a), Some(b)) = (in_fresh_process(&h), in_fresh_process(&stripped)) {
+                rep.stats.count("fresh_process_pairs");
+                if a != b { rep.violation("parse-dependent-chain", input.clone(), format!("each history in a process of its own: with intermediate parses {}; without {}", a, b)); }
+            } else { rep.stats.count("fresh_process_spawn_failed"); }
         }
     }
 }
